@@ -196,6 +196,40 @@ func runC07(c *Ctx) {
 			CutSpec{Edges: FactEdge("le(call:builtin.len(*),const:0)", "eq(call:builtin.len(*),const:0)")}, 1)
 	}
 
+	// combined handler: one handler still waiting / failing keeps the finalizer
+	ch := p.Method(pkgCleanup, "combinedHandler", "FinalizerRemoval")
+	if c.NeedFunc("R07.7", ch, pkgCleanup+".combinedHandler.FinalizerRemoval") {
+		hcall := "(" + pkgCleanup + ".Handler[*]).FinalizerRemoval"
+		calls := p.Calls(ch, hcall)
+		nonnil := p.EdgeSuccs(ch, "nonnil(call:"+hcall+"(*")
+
+		switch {
+		case len(calls) != 1:
+			c.Bad("R07.7", FuncName(ch)+" :: every handler's verdict counts", fpos(ch), "expected one FinalizerRemoval call site in the loop")
+		case len(nonnil) == 0:
+			c.Bad("R07.7", FuncName(ch)+" :: every handler's verdict counts", fpos(ch), "a handler's error is never tested")
+		default:
+			// accepted idioms: early return of the error (no further handler consulted), or accumulation (multierror.Append / errors.Join)
+			accumulates := false
+
+			for _, r := range *calls[0].Value().Referrers() {
+				if cl, ok := r.(ssa.CallInstruction); ok {
+					if cn := p.CalleeName(cl); Glob("github.com/hashicorp/go-multierror.Append", cn) || cn == "errors.Join" {
+						accumulates = true
+					}
+				}
+			}
+
+			again, w := p.Reach(nonnil, p.CallTo(hcall), CutSpec{})
+			nilRet, w2 := p.Reach(nonnil, ReturnsNilConst(0), CutSpec{})
+
+			c.Check((!again || accumulates) && !nilRet, "R07.7", FuncName(ch)+" :: a non-nil handler result ends the pass with that error (or is accumulated)", fpos(ch),
+				"early return / accumulation", "after a handler returned an error the loop continues and a later handler's nil can win: "+strings.Join(append(w, w2...), " "))
+		}
+
+		c.MustCut("R07.7", "combined return nil ⊣ {handler returned nil}", ch, ReturnsNilConst(0), CutSpec{Edges: FactEdge("nil(call:"+hcall+"(*", "ge(*", "le(call:builtin.len(*")}, 1)
+	}
+
 	// ---- R07.8 destroy controller
 	c.Rule("R07.8", "E1", "destroy.Controller.Reconcile: Destroy only for a tearing-down, unowned resource without finalizers", 3)
 
